@@ -38,9 +38,18 @@ impl Workspace {
     //@@ end
     //@@ fn crates/rip-workspace/src/lib.rs Workspace::to_relative
     //@@ end
+    //@@ fn crates/rip-workspace/src/lib.rs Workspace::list_checkpoints
+    //@@ end
 }
 #[derive(Debug, Clone, PartialEq, Eq)]
 pub struct PatchHunk { pub before: Vec<String>, pub after: Vec<String> }
+// the authority's checkpoint hook (ripd): rewind by id
+pub struct CheckpointRewindRecord { pub id: String, pub label: String, pub files: Vec<String> }
+pub struct WorkspaceCheckpointHook { pub workspace: Workspace }
+impl WorkspaceCheckpointHook {
+    //@@ fn crates/ripd/src/checkpoints.rs WorkspaceCheckpointHook::rewind
+    //@@ end
+}
 //@@ item crates/rip-workspace/src/patch.rs enum PatchOp
 //@@ item crates/rip-workspace/src/patch.rs struct Patch
 impl Patch {
@@ -109,7 +118,7 @@ fn main() {
         let sab = sabotage && covered.contains(&1) && sts_b[1] != 0;
         if sab { let _ = fs::remove_dir_all(root.join("d")); fs::write(root.join("d"), "not a dir").unwrap(); }
         let pre_rewind = snapshot(&root);
-        let res = ws.rewind_to_checkpoint("s", &cp.id);
+        let res = ws.rewind_to_checkpoint("s", &cp.id).map(|_| ());
         let post = snapshot(&root);
         let mut problem: Option<String> = None;
         match &res {
@@ -121,6 +130,24 @@ fn main() {
             println!("WITNESS {{\"function\": \"Workspace::create_checkpoint + rewind_to_checkpoint\", \"files\": {:?}, \"state_at_checkpoint\": {:?}, \"state_before_rewind\": {:?}, \"covered\": {:?}, \"named_relative\": {}, \"cwd_is_root\": {}, \"parent_dir_replaced_by_file\": {}, \"rewind_result\": {:?}, \"problem\": {:?}}}",
                 files, sts_b, sts_a, covered, naming == 1, cwd_is_root, sab, res.as_ref().map_err(|e| e.to_string()), p);
             let _ = std::env::set_current_dir("/"); let _ = fs::remove_dir_all(&base); return;
+        }
+        // rewind through the authority's hook: only an id of a checkpoint of that session is honoured; anything else (a path climbing
+        // out of the store to planted metadata, an absolute path, an alias of the id) is refused and changes nothing
+        if cover == 3 && naming == 0 && !sab {
+            let planted = other.join("planted"); let _ = fs::create_dir_all(planted.join("files"));
+            fs::write(planted.join("files/a.txt"), "PLANTED").unwrap();
+            fs::write(planted.join("checkpoint.json"), "evil\ns\nl\n0\na.txt\ttrue\th7\n").unwrap();
+            let hook = WorkspaceCheckpointHook { workspace: Workspace { root: root.clone(), checkpoints_dir: root.join(".rip").join("checkpoints") } };
+            let rel_out = format!("../../../../{}/planted", other.file_name().unwrap().to_string_lossy());
+            for id in [rel_out.clone(), planted.to_string_lossy().to_string(), "".to_string(), ".".to_string(), format!("./{}", cp.id), format!("{}/", cp.id), format!("x/../{}", cp.id), "missing".to_string()] {
+                let before = snapshot(&root);
+                let r = hook.rewind("s", &id);
+                if r.is_ok() || snapshot(&root) != before {
+                    println!("WITNESS {{\"function\": \"WorkspaceCheckpointHook::rewind\", \"checkpoint_id_argument\": {:?}, \"existing_checkpoint_id\": {:?}, \"accepted\": {}, \"workspace_changed\": {}, \"problem\": \"a checkpoint id that is not the id of a checkpoint of the session was honoured (metadata and files read from outside the checkpoint store)\"}}", id, cp.id, r.is_ok(), snapshot(&root) != before);
+                    let _ = std::env::set_current_dir("/"); let _ = fs::remove_dir_all(&base); return;
+                }
+            }
+            if hook.rewind("s", &cp.id).is_err() { println!("WITNESS {{\"function\": \"WorkspaceCheckpointHook::rewind\", \"checkpoint_id_argument\": {:?}, \"problem\": \"the id of an existing checkpoint was refused\"}}", cp.id); let _ = std::env::set_current_dir("/"); let _ = fs::remove_dir_all(&base); return; }
         }
         // a refused request leaves nothing behind in the checkpoint store
         let n0 = store_entries(&root);
